@@ -1,7 +1,7 @@
 /* C07 / C08 monitor: random and exhaustive seek histories on encoder-made chained
    streams, judged against a linear reference decode and the harness's own page scan. */
 #include "common.h"
-#include "spec.h"
+#include "mixed.h"
 #include <math.h>
 
 typedef struct {
@@ -249,26 +249,9 @@ static void run_case(const drvargs_t *a,long id){
   if(exhaustive) for(int i=0;i<cd.nlinks;i++){ if(cd.cfg[i].channels>2 && cd.cfg[i].channels<=8) cd.cfg[i].channels=2; }
   chain_describe(&cd,desc,sizeof desc);
   /* every 4th case some links are model-made (block sizes 64..8192 in any pair, floor 0, end-trimmed last packet, ...) */
-  int modelmask=0; if(id%4==3){ for(int i=0;i<cd.nlinks;i++) if(rng_chance(&r,0.5)) modelmask|=1<<i; if(!modelmask) modelmask=1<<rng_below(&r,(uint32_t)cd.nlinks); }
+  unsigned modelmask= (id%4==3)? pick_modelmask(&r,cd.nlinks):0;
   if(!modelmask){ if(build_chain(&cd,&phys,s.linkoff)){ res_sample("encoder setup refused: %s",desc); res_end(); buf_free(&phys); return; } }
-  else {
-    size_t dl=strlen(desc);
-    for(int i=0;i<cd.nlinks;i++){
-      s.linkoff[i]=phys.n;
-      if(modelmask&(1<<i)){
-        sp_setup *S=NULL; for(int t=0;t<50;t++){ S=sp_gen_setup(&r,(int)rng_below(&r,SP_NPROFILES),1); if(S->channels<=8 && ((long)S->channels<<S->bs1exp)<=(1L<<15)) break; sp_free_setup(S); S=NULL; }
-        if(!S){ res_sample("no model setup"); res_end(); buf_free(&phys); return; }
-        pktlist_t pk; pktlist_init(&pk); int np=(int)rng_range(&r,2,exhaustive?12:50); sp_gen_stream(&r,S,np,&pk,(int)rng_below(&r,2));
-        mux_stream(&pk,cd.serial[i],cd.policy[i],cd.fill[i],cd.muxseed+i,&phys); pktlist_free(&pk);
-        if(dl+50<sizeof desc) dl+=snprintf(desc+dl,sizeof desc-dl," {link %d model ch%d bs%d/%d %dpk}",i,S->channels,1<<S->bs0exp,1<<S->bs1exp,np);
-        cd.cfg[i].nsamples=-1; sp_free_setup(S);
-      } else {
-        encres_t er; if(enc_run(&cd.cfg[i],&er)){ encres_free(&er); res_sample("encoder setup refused: %s",desc); res_end(); buf_free(&phys); return; }
-        mux_stream(&er.pk,cd.serial[i],cd.policy[i],cd.fill[i],cd.muxseed+i,&phys); encres_free(&er);
-      }
-    }
-    s.linkoff[cd.nlinks]=phys.n;
-  }
+  else if(build_chain_mixed(&r,&cd,modelmask,exhaustive?12:50,8,&phys,s.linkoff,desc,sizeof desc)){ res_sample("setup refused: %s",desc); res_end(); buf_free(&phys); return; }
   vh_dump("stream.ogg",phys.p,phys.n);
   s.d=phys.p; s.n=phys.n; s.nlinks=cd.nlinks;
   if(ref_decode(s.d,s.n,0,&s.ref)){
